@@ -197,6 +197,33 @@ def cost_spec(kind: str, name: str):
     raise MachineryError(f"cost spec {name}")
 
 
+def _spec_copy_into(dst, src):
+    dst.shared = src.shared
+    dst.default = src.default
+    dst.data.clear()
+    dst.data.update({k: list(v) for k, v in src.data.items()})
+    return dst
+
+
+def spec_object(kind: str, name: str, how: str, user_spec=None):
+    """A cost specification of contents `name` ("A" | "B" | "D") given as
+       "s": the built-in (module-level) object(s);
+       "f": freshly constructed temporary CostSpec object(s) with the same registrations (garbage once replaced);
+       "i": the scenario's own CostSpec object `user_spec`, changed IN PLACE to these contents (single specs only)."""
+    from plinio.cost import CostSpec
+    src = cost_spec(kind, name)
+    if how == "s":
+        return src
+    if how == "f":
+        mk = lambda c: _spec_copy_into(CostSpec(), c)
+        return {k: mk(v) for k, v in src.items()} if isinstance(src, dict) else mk(src)
+    if how == "i":
+        if isinstance(src, dict) or user_spec is None:
+            raise MachineryError("in-place specification: single specifications only")
+        return _spec_copy_into(user_spec, src)
+    raise MachineryError(f"spec object kind {how}")
+
+
 # ----------------------------------------------------------------------------------------------
 # construction
 # ----------------------------------------------------------------------------------------------
@@ -489,7 +516,7 @@ def export_fingerprint(e: nn.Module, x: torch.Tensor, ids: Ids) -> Dict[str, Any
 # C18: executor of call sequences (full run + run with the observer calls erased)
 # ----------------------------------------------------------------------------------------------
 OBSERVER_OPS = ("export", "summary", "cost", "getcost", "inspect")
-NO_RET = {"k": "none", "a": 0, "b": 0, "c": 0}
+NO_RET = {"k": "none", "a": 0, "b": 0, "c": 0, "rg": False, "g": 0}
 
 
 def _settle(kind: str, m, x: torch.Tensor, wseed: int) -> None:
@@ -593,6 +620,48 @@ def option_view(kind: str, m, mcopy, executed: set) -> Tuple[Dict[str, Any], str
     return agg, json.dumps(rows, sort_keys=True, default=str)
 
 
+def grad_link(kind: str, m) -> Tuple[str, str]:
+    """The autograd link of what is stored in the model: for every quantiser / combiner, whether its stored theta_alpha
+    requires grad and the gradient of a fixed linear functional of it w.r.t. its alpha.  Pure torch on the stored
+    tensors (retain_graph, no .grad is written, nothing of plinio runs).  Returns (canonical string, "T"|"F"|"mixed"|"-")."""
+    rows, rgs = [], []
+    for n, q in _deciders(kind, m):
+        th, al = getattr(q, "theta_alpha", None), getattr(q, "alpha", None)
+        if not isinstance(th, torch.Tensor) or not isinstance(al, torch.Tensor):
+            continue
+        if not th.requires_grad:
+            rows.append([n, False, "-"])
+            rgs.append(False)
+            continue
+        w = torch.arange(1, th.numel() + 1, dtype=th.dtype).reshape(th.shape) / th.numel()
+        try:
+            (g,) = torch.autograd.grad((th * w).sum(), [al], retain_graph=True, allow_unused=True)
+        except RuntimeError as ex:       # a graph that can no longer be traversed is a link that is gone
+            rows.append([n, True, "error:" + str(ex)[:40]])
+            rgs.append(False)
+            continue
+        rows.append([n, True, "none" if g is None else hashlib.sha1(g.detach().contiguous().numpy().tobytes()).hexdigest()])
+        rgs.append(g is not None)
+    agg = "-" if not rgs else "T" if all(rgs) else "F" if not any(rgs) else "mixed"
+    return json.dumps(rows), agg
+
+
+def cost_grad(m, cv: torch.Tensor, ids: Ids) -> Tuple[bool, int]:
+    """requires_grad of a cost value read on the live model and the id of its gradient w.r.t. EVERY parameter of the model
+    (torch.autograd.grad with retain_graph: no .grad is written, the graph stays usable)"""
+    if not cv.requires_grad:
+        return False, ids.of("cgrad", "no-grad")
+    ps = [p for p in m.parameters() if p.requires_grad]
+    try:
+        gs = torch.autograd.grad(cv, ps, retain_graph=True, allow_unused=True)
+    except RuntimeError as ex:
+        return True, ids.of("cgrad", "error:" + str(ex)[:60])
+    h = hashlib.sha1()
+    for g in gs:
+        h.update(b"none" if g is None else g.detach().contiguous().numpy().tobytes())
+    return True, ids.of("cgrad", h.hexdigest())
+
+
 def observe(kind: str, m, x: torch.Tensor, ids: Ids, cs: str) -> Dict[str, Any]:
     """fingerprint + bookkeeping fields of the trace format"""
     rng0 = torch.get_rng_state()
@@ -634,6 +703,9 @@ def observe(kind: str, m, x: torch.Tensor, ids: Ids, cs: str) -> Dict[str, Any]:
     o["thv"] = ids.of("thv", _hash_items((n, q.theta_alpha) for n, q in _deciders(kind, m)
                                          if isinstance(getattr(q, "theta_alpha", None), torch.Tensor)))
     o["cs"] = cs
+    gl, glrg = grad_link(kind, m)
+    o["glink"] = ids.of("glink", gl)
+    o["glrg"] = glrg
     # everything below executes code of the model: on faithful copies only.  Cost and summary first, on a copy
     # that has NOT been forwarded (they must see the coefficients as they are stored right now).
     o["dirty"] = dirty
@@ -677,7 +749,8 @@ def observe(kind: str, m, x: torch.Tensor, ids: Ids, cs: str) -> Dict[str, Any]:
     return o
 
 
-def apply_c18(kind: str, m, act: Dict[str, Any], xf: torch.Tensor, xp: torch.Tensor, ids: Ids) -> Dict[str, Any]:
+def apply_c18(kind: str, m, act: Dict[str, Any], xf: torch.Tensor, xp: torch.Tensor, ids: Ids,
+              user_spec=None, canonical: bool = False) -> Dict[str, Any]:
     """perform one abstract call on the live model; returns {ret, err, rngadv}"""
     a = act["a"]
     rng0 = torch.get_rng_state()
@@ -689,16 +762,16 @@ def apply_c18(kind: str, m, act: Dict[str, Any], xf: torch.Tensor, xp: torch.Ten
             rng1 = torch.get_rng_state()
             xf_ = export_fingerprint(e, xp, ids)
             torch.set_rng_state(rng1)
-            ret = {"k": "export", "a": xf_["struct"], "b": xf_["sd"], "c": xf_["out"]}
+            ret = dict(NO_RET, k="export", a=xf_["struct"], b=xf_["sd"], c=xf_["out"])
         elif a == "summary":
-            ret = {"k": "sum", "a": ids.of("sum", json.dumps(jsonable(m.summary()))), "b": 0, "c": 0}
-        elif a == "cost":
-            ret = {"k": "cost", "a": _costv_ids([float(m.cost.detach())], ids)[0], "b": 1, "c": 0}
-        elif a == "getcost":
-            ret = {"k": "cost", "a": _costv_ids([float(m.get_cost(act["n"]).detach())], ids)[0],
-                   "b": 1 if act["n"] == "a" else 2, "c": 0}
+            ret = dict(NO_RET, k="sum", a=ids.of("sum", json.dumps(jsonable(m.summary()))))
+        elif a in ("cost", "getcost"):
+            cv = m.cost if a == "cost" else m.get_cost(act["n"])
+            rg, gid = cost_grad(m, cv, ids)
+            ret = dict(NO_RET, k="cost", a=_costv_ids([float(cv.detach())], ids)[0],
+                       b=1 if a == "cost" or act["n"] == "a" else 2, rg=rg, g=gid)
         elif a == "setcs":
-            m.cost_specification = cost_spec(kind, act["c"])
+            m.cost_specification = spec_object(kind, act["c"], "s" if canonical else act.get("how", "s"), user_spec)
         elif a == "forward":
             m(xf)
         elif a == "mode":
@@ -721,7 +794,7 @@ def apply_c18(kind: str, m, act: Dict[str, Any], xf: torch.Tensor, xp: torch.Ten
                 m.nas_parameters_summary(post_sampling=True)
             if kind == "sn":
                 m.get_total_icv()
-            ret = {"k": "inspect", "a": ids.of("names", json.dumps(names)), "b": 0, "c": 0}
+            ret = dict(NO_RET, k="inspect", a=ids.of("names", json.dumps(names)))
         elif a == "upd":
             o, v = act["o"], int(act["v"])
             if kind == "pit":
@@ -756,6 +829,8 @@ def _same_obs(a: Dict[str, Any], b: Dict[str, Any]) -> bool:
 
 def run_c18(sc: Dict[str, Any]) -> Dict[str, Any]:
     """scenario {kind, variant, init{train, hard, gumbel, cs, fc}, wseed, acts} -> trace for specs/ObserversTrace.tla.
+    Three objects from the same factory: the full run; the erased run (no observer calls, built-in specification objects);
+    the gradient twin (no observer calls except the cost reads).
     The full run and the erased run each own a random stream (saved / restored around every call and observation), so
     that Gumbel sampling is reproducible and the two runs stay in lock-step as long as they consume the same numbers."""
     kind, variant, init, wseed = sc["kind"], sc["variant"], sc["init"], int(sc.get("wseed", 0))
@@ -790,20 +865,35 @@ def run_c18(sc: Dict[str, Any]) -> Dict[str, Any]:
         twins.append({"cs": c, "cost": ot["cost"], "costv": ot["costv"]})
     ev = []
     cs2 = cs
+    from plinio.cost import CostSpec
+    user_spec = CostSpec()          # the scenario's own specification object (changed in place by setcs how = "i")
+    # gradient twin: a third object that makes the non-observer calls and, of the observers, ONLY the cost reads (where
+    # the full run reads a cost); it never exports / summarises / inspects.  No fingerprints are taken of it.
+    m3 = rng3 = None
+    if any(a["a"] in ("cost", "getcost") for a in sc["acts"]):
+        m3, _, rng3 = fresh(cs)
     for act in sc["acts"]:
         keys0 = public_dict_keys(m)
         torch.set_rng_state(rng1)
-        r = apply_c18(kind, m, act, xf, x, ids)
+        r = apply_c18(kind, m, act, xf, x, ids, user_spec=user_spec)
         rng1 = torch.get_rng_state()
         if act["a"] == "setcs" and not r["err"]:
             cs = act["c"]
         o = observe(kind, m, x, ids, cs)
         e = {"act": dict({"nobn": False, "n": "-", "c": "-", "v": False, "o": "-"}, **act), "obs": o, "ret": r["ret"],
              "err": r["err"], "rngadv": r["rngadv"], "dk": dict_key_diff(m, keys0, public_dict_keys(m)),
-             "ref": {"has": False, "obs": o}}
+             "ref": {"has": False, "obs": o}, "tw": {"has": False, "a": 0, "rg": False, "g": 0}}
+        e["act"].setdefault("how", "s")
+        if m3 is not None and (act["a"] not in OBSERVER_OPS or act["a"] in ("cost", "getcost")):
+            torch.set_rng_state(rng3)
+            r3 = apply_c18(kind, m3, act, xf, x, ids, canonical=True)
+            rng3 = torch.get_rng_state()
+            if act["a"] in ("cost", "getcost") and not r3["err"] and not r["err"]:
+                e["tw"] = {"has": True, "a": r3["ret"]["a"], "rg": r3["ret"]["rg"], "g": r3["ret"]["g"]}
         if act["a"] not in OBSERVER_OPS:
             torch.set_rng_state(rng2)
-            r2 = apply_c18(kind, m2, act, xf, x, ids)
+            # the erased run also uses the built-in specification objects: only the CONTENTS of a specification may matter
+            r2 = apply_c18(kind, m2, act, xf, x, ids, canonical=True)
             rng2 = torch.get_rng_state()
             if act["a"] == "setcs" and not r2["err"]:
                 cs2 = act["c"]
